@@ -4,16 +4,22 @@
 //
 // usage: nnls_harness <nsmall> <nlarge> <cases.out> <impl.out> <stats.out> <kkt_tol> <hang_seconds> [<nmedium>]
 //        nnls_harness replay <caseline-file> <impl.out> <hang_seconds>
+//        nnls_harness big <count> <big.out> <kkt_tol> <hang_seconds>            large dense staged-release stream (kind 11), judged here
+//        nnls_harness bigreplay <big.out> <kkt_tol> <hang_seconds> <solver> <descriptor fields...>
+//        nnls_harness corpus <corpus.txt> <cases.out> <impl.out> <stats.out> <kkt_tol> <hang_seconds> <t2,t3,..>   (kind 12; every solver at 1 worker, updown/block3 also at t2, t3, ..)
 //
 // cases.out lines
 //   SYS id kind n ls rows nnz (i j bits)*nnz  v bits*rows      ls=0: A=M (n x n), b=v;  ls=1: A=M'M, b=M'v
 //       kinds 0-4,7 small (n <= 12), 5 large sparse banded, 6 least-squares form,
 //       8-10 dense n = 30..220 (<nmedium> systems; multi-row factor updates, see gen_dense_gram / gen_staged / gen_overshoot)
-//   X id solver tolbits                                         solver 0 LH(normaleq) 1 block 2 updown 3 block3 4 LH(least squares)
+//   X id solver tolbits [nthreads]                              solver 0 LH(normaleq) 1 block 2 updown 3 block3 4 LH(least squares);
+//                                                               nthreads: OMP_NUM_THREADS/GOTO_NUM_THREADS of this call (line-search workers)
 // impl.out lines (one per cases line)
 //   sys
 //   ok bits*n | iters=<n> cap=<0/1> walk=<n> boundary=<n> full=<n> stuck=<n> constr=<n>
 //               rowadd=<calls> madd=<calls adding >= 2 rows> rowdel=<calls> mdel=<calls deleting >= 2 rows> maxrows=<n> refac=<n> retries=<n>
+//               forced=<walk_descents calls that took the last trial although no trial reduced the residual (d_res >= 0)> fidx=<their trial indices>
+//               [ldkkt=<0/1> ldneed=<f> ldtol=<f>: long-double KKT verdict of this harness, kinds >= 8; cross-checked against the exact driver]
 //   hang | abort <status>
 #include <cholmod.h>
 #include <sys/wait.h>
@@ -294,6 +300,156 @@ Sys gen_overshoot(Rng& r, int nlo, int nhi) {
   return from_dense(10, n, A, b);
 }
 
+
+// ---- kind 11: LARGE dense staged release, n = 600..1600 (seeded change C11-5).  After repo fix 20cd6bb modify_factor takes the
+// row-by-row path for nH1+nH2 >= 2 rows only if fl / (9*16*(nH1+nH2)*modfl) > 1; with a dense factor fl ~ n^3/3 and
+// modfl ~ lnz ~ n^2/2 that is n > ~216 * (rows changed) - and only on a factor that is already full-size, i.e. after an
+// earlier update REQUEST (a single released coefficient always requests one).  Construction (same matrix family as kind 9:
+// integer, symmetric, strictly diagonally dominant with a_ii = 1 + sum_j |a_ij|, so all eigenvalues lie in [1, 2 a_ii]):
+//   core C (dense, negative couplings, b > 0)             released in iteration 0   (factor of A[C,C] only)
+//   Q_1 = one coefficient t, pulled up by the core         released in iteration 1   (single row: update requested -> full-size factor)
+//   Q_2, Q_3, ... groups of 2..6 MUTUALLY COUPLED coefficients, Q_j pulled up by Q_{j-1}: released TOGETHER in iteration j
+//   (multi-row cholmod_rowadd, nH2 = |Q_j|).
+// A system is a function of its descriptor (generator seed + sizes): the replay carries the descriptor, not 2.25 million entries.
+struct BigDesc { uint64_t gseed; int n, pstyle, scale, dense10, ridge, neg, nst; int k[8]; };
+
+std::string big_desc_str(const BigDesc& d) {
+  std::ostringstream o; o << d.gseed << " " << d.n << " " << d.pstyle << " " << d.scale << " " << d.dense10 << " " << d.ridge << " " << d.neg << " " << d.nst;
+  for (int j = 0; j < d.nst; j++) o << " " << d.k[j];
+  return o.str();
+}
+
+bool big_desc_parse(std::istream& in, BigDesc& d) {
+  if (!(in >> d.gseed >> d.n >> d.pstyle >> d.scale >> d.dense10 >> d.ridge >> d.neg >> d.nst) || d.ridge < 0 || d.neg < 0 || d.neg > d.n / 8 || d.nst < 0 || d.nst > 8 || d.n < 8 || d.n > 4000) return false;
+  int used = 0;
+  for (int j = 0; j < d.nst; j++) { if (!(in >> d.k[j]) || d.k[j] < 1) return false; used += d.k[j]; }
+  return used < d.n / 2 && (d.nst > 0 || d.neg > 0);
+}
+
+BigDesc draw_big(Rng& r, int slot) {
+  BigDesc d; d.gseed = r.next() >> 1;
+  d.pstyle = r.range(0, 2); d.scale = r.coin(1, 4) ? 1 : 0; d.dense10 = r.coin(1, 4) ? 8 : 10;
+  { int rg[4] = {0, 2, 8, 32}; d.ridge = rg[r.range(0, 3)]; }   // extra diagonal weight of the staged coefficients: the weaker their mutual
+                                                                // coupling relative to the diagonal, the smaller the effect of a wrong factor row
+  d.neg = 0;
+  if (slot % 5 == 2) {
+    // overshoot (the large counterpart of kind 10): every coefficient is released at once - the first factor is already
+    // full-size - and a planted group of 2..4 slightly negative components is constrained in ONE call: multi-row
+    // cholmod_rowdel (nH1 >= 2; needs n > ~216 * rows as well); optionally one group released afterwards
+    d.n = r.range(900, 1300); d.neg = r.range(2, std::min(4, d.n / 300)); d.ridge = 0;
+    d.nst = r.coin() ? 0 : 1; d.k[0] = r.range(1, 2);
+    return d;
+  }
+  if (slot % 5 == 4) {
+    // nnls_normal_block_updown switches whole blocks only while the number of infeasible coefficients keeps falling and stays above
+    // its murty_steps counter (5, +1 per block step): stages of 9..10 and then 8..9 coefficients; the first one is the update
+    // request (n > 216 * 10), the second one the multi-row add
+    d.n = r.range(2200, 2400); d.dense10 = 10; d.nst = 2; d.k[0] = r.range(9, 10); d.k[1] = r.range(8, d.k[0] - 1);
+    return d;
+  }
+  // sizes: one system near each end of the range and the rest in between; the number of rows that can be added in one
+  // row-by-row call grows with n (about n / 216)
+  int lo[4] = {620, 1380, 0, 1100}, hi[4] = {800, 1600, 0, 1500};
+  d.n = r.range(lo[slot % 5], hi[slot % 5]);
+  int kcap = std::max(2, std::min(6, d.n / 240));
+  // mostly ONE group after the single coefficient: a factor damaged by the multi-row add is then the one the returned vector is
+  // computed from; with further stages the next multi-row change usually recomputes the factor from scratch (the flop estimate of
+  // a row modification, Common->modfl, has grown by then), which hides the damage
+  d.nst = r.coin(2, 3) ? 2 : r.range(3, 4);
+  d.k[0] = 1;                                       // the single coefficient whose release builds the full-size factor
+  for (int j = 1; j < d.nst; j++) d.k[j] = r.range(2, kcap);
+  if (slot % 5 == 3 && d.nst >= 3) d.k[d.nst - 1] = 1;     // a late single release after a multi-row add
+  return d;
+}
+
+// roles[i]: 0 core, -1 planted negative group, j >= 1 member of stage j
+Sys gen_big(const BigDesc& d, std::vector<int>* roles = nullptr) {
+  Rng r(d.gseed * 2 + 1);
+  int n = d.n, used = 0; for (int j = 0; j < d.nst; j++) used += d.k[j];
+  std::vector<int> k(d.nst + 1), start(d.nst + 2, 0);
+  k[0] = n - used; for (int j = 1; j <= d.nst; j++) k[j] = d.k[j - 1];
+  for (int j = 0; j <= d.nst; j++) start[j + 1] = start[j] + k[j];
+  std::vector<int> perm(n); for (int i = 0; i < n; i++) perm[i] = i;
+  if (d.pstyle == 0) shuffle(r, perm); else if (d.pstyle == 1) for (int i = 0; i < n; i++) perm[i] = n - 1 - i;
+  std::vector<double> A((size_t)n * n, 0.0), b(n, 0.0);
+  auto add = [&](int u, int v, double w) { int a = perm[u], c = perm[v]; A[(size_t)a * n + c] += w; A[(size_t)c * n + a] += w; };
+  // couplings inside the core are negative, except those of a planted negative group N (the last d.neg core members), which
+  // are positive towards the rest of the core and of either sign inside N
+  int nlo = k[0] - d.neg;
+  for (int u = 0; u < k[0]; u++) for (int v = u + 1; v < k[0]; v++) if ((int)r.below(10) < d.dense10) {
+    double w = (double)r.range(1, 3);
+    add(u, v, (v >= nlo && u < nlo) ? w : ((u >= nlo) ? (r.coin() ? 1.0 : -1.0) : -w));
+  }
+  for (int j = 1; j <= d.nst; j++) {
+    for (int u = start[j]; u < start[j + 1]; u++) {
+      int deg = r.range(1, 3);
+      for (int t = 0; t < deg; t++) {                       // pulled up by the previous stage (not by a planted negative member)
+        int v = start[j - 1] + (int)r.below(j == 1 ? std::max(1, nlo) : k[j - 1]);
+        if (A[(size_t)perm[u] * n + perm[v]] != 0) continue;
+        add(u, v, -(double)r.range(1, 3));
+      }
+      for (int v = u + 1; v < start[j + 1]; v++)            // members of one stage are coupled to each other
+        if (r.coin(9, 10)) add(u, v, r.coin(1, 8) ? 1.0 : -(double)r.range(1, 2));
+    }
+  }
+  for (int i = 0; i < n; i++) { double s = 1.0; for (int jj = 0; jj < n; jj++) if (jj != i) s += std::fabs(A[(size_t)i * n + jj]); A[(size_t)i * n + i] = s; }
+  for (int u = k[0]; u < n; u++) A[(size_t)perm[u] * n + perm[u]] += (double)d.ridge;
+  for (int u = 0; u < n; u++) b[perm[u]] = (u < k[0]) ? (double)r.range(1, 16) : (r.coin() ? 0.0 : -(double)r.range(1, 4) / 16.0);
+  if (d.neg > 0) {
+    // planted unconstrained solution on the core: x0 = c0 (+0..2) > 0 except on the last d.neg core members (the group N,
+    // coupled POSITIVELY to the rest of the core: see below), where x0 = -(1..7)/8; b = A x0 on the core (exact, and > 0)
+    std::vector<double> x0(n, 0.0); double c0 = (double)(r.range(4, 8) * (1 + 3 * d.neg)); bool vary = r.coin(1, 3);
+    for (int u = 0; u < k[0]; u++) x0[perm[u]] = (u < k[0] - d.neg) ? c0 + (vary ? (double)r.range(0, 2) : 0.0) : -(double)r.range(1, 7) / 8.0;
+    for (int u = 0; u < k[0]; u++) { int i = perm[u]; double sacc = 0; for (int jj = 0; jj < n; jj++) sacc += A[(size_t)i * n + jj] * x0[jj]; b[i] = sacc; }
+  }
+  if (d.scale) {   // D A D, D b with D = diag(2^e), |e| <= 3 (exact)
+    std::vector<int> e(n); for (auto& x : e) x = r.range(-3, 3);
+    for (int i = 0; i < n; i++) { b[i] = std::ldexp(b[i], e[i]); for (int jj = 0; jj < n; jj++) A[(size_t)i * n + jj] = std::ldexp(A[(size_t)i * n + jj], e[i] + e[jj]); }
+  }
+  if (roles) { roles->assign(n, 0); for (int u = nlo; u < k[0]; u++) (*roles)[perm[u]] = -1; for (int j = 1; j <= d.nst; j++) for (int u = start[j]; u < start[j + 1]; u++) (*roles)[perm[u]] = j; }
+  return from_dense(11, n, A, b);
+}
+
+// Long-double KKT verdict with the tolerance of the exact driver (checkX, Cholesky-based solvers):
+//   xp = max(x, 0), g = A xp - b, mag_i = sum_j |A_ij| xp_j + |b_i|, tol_i = tolS + negpart * sum_j |A_ij| + 64 n 2^-53 mag_i;
+//   KKT: g_i >= -tol_i, and g_i <= tol_i where xp_i > 0.
+// Entries of the dense classes are small integers (times powers of two) and x is a double: every product is exact in the
+// 64-bit significand up to 2^-64 relative, the sums of n <= 1600 terms carry <= n 2^-64 relative to mag_i - five orders of
+// magnitude below the rounding term of the tolerance.
+struct LdKkt { bool finite, nonneg, negok, kkt; long double need, tolmax, rel, negpart; int worst; };
+LdKkt ld_kkt(const Sys& s, const std::vector<double>& x, double tolS) {
+  LdKkt o; o.finite = true; o.need = 0; o.tolmax = 0; o.rel = 0; o.negpart = 0; o.worst = -1;
+  int n = s.n;
+  for (double v : x) { if (!std::isfinite(v)) o.finite = false; if (-(long double)v > o.negpart) o.negpart = -(long double)v; }
+  o.nonneg = (o.negpart == 0); o.negok = (o.negpart <= (long double)tolS);
+  if (!o.finite) { o.kkt = false; return o; }
+  std::vector<long double> g(n, 0.0L), mag(n, 0.0L), rs(n, 0.0L);
+  for (size_t t = 0; t < s.tx.size(); t++) {
+    int i = s.ti[t], j = s.tj[t]; long double xp = x[j] < 0 ? 0.0L : (long double)x[j];
+    long double p = (long double)s.tx[t] * xp;
+    g[i] += p; mag[i] += fabsl(p); rs[i] += fabsl((long double)s.tx[t]);
+  }
+  long double u = 64.0L * n / 9007199254740992.0L;
+  o.kkt = true;
+  for (int i = 0; i < n; i++) {
+    g[i] -= (long double)s.v[i]; mag[i] += fabsl((long double)s.v[i]);
+    long double tol = (long double)tolS + o.negpart * rs[i] + u * mag[i];
+    long double viol = -g[i]; if (x[i] > 0 && g[i] > viol) viol = g[i]; if (viol < 0) viol = 0;
+    if (tol > o.tolmax) o.tolmax = tol;
+    if (viol > o.need) o.need = viol;
+    if (mag[i] > 0 && viol / mag[i] > o.rel) { o.rel = viol / mag[i]; }
+    if (viol > tol) o.kkt = false;
+  }
+  // index of the largest violation relative to its tolerance (for the report)
+  long double best = -1;
+  for (int i = 0; i < n; i++) {
+    long double tol = (long double)tolS + o.negpart * rs[i] + u * mag[i];
+    long double viol = -g[i]; if (x[i] > 0 && g[i] > viol) viol = g[i]; if (viol < 0) viol = 0;
+    if (tol > 0 && viol / tol > best) { best = viol / tol; o.worst = i; }
+  }
+  return o;
+}
+
 cholmod_sparse* to_sparse(const Sys& s, cholmod_common* c) {
   cholmod_triplet* t = cholmod_l_allocate_triplet(s.rows, s.n, s.tx.size() + 1, 0, CHOLMOD_REAL, c);
   for (size_t k = 0; k < s.tx.size(); k++) { ((long*)t->i)[k] = s.ti[k]; ((long*)t->j)[k] = s.tj[k]; ((double*)t->x)[k] = s.tx[k]; }
@@ -315,8 +471,27 @@ void count_rowmods(const std::string& verb, const char* needle, int& calls, int&
 
 int count_sub(const std::string& hay, const char* needle) { int n = 0; size_t p = 0, l = strlen(needle); while ((p = hay.find(needle, p)) != std::string::npos) { n++; p += l; } return n; }
 
+// walk_descents prints "alpha[k] = <a>, d_res = <residual(trial k) - residual(current)>" for the trial it takes; it takes a trial
+// either because it reduced the residual (d_res < 0) or because it is the last one (forced step, feasible = false): count the
+// lines with d_res >= 0
+int count_forced(const std::string& verb, std::string* idx = nullptr) {
+  int n = 0; size_t p = 0; const char* needle = "d_res = ";
+  while ((p = verb.find(needle, p)) != std::string::npos) {
+    p += strlen(needle);
+    if (!(strtod(verb.c_str() + p, nullptr) < 0)) {
+      n++;
+      size_t a = verb.rfind("alpha[", p);      // the index of the trial taken: "\talpha[<k>] = ..."
+      if (idx && a != std::string::npos) { if (!idx->empty()) *idx += ","; *idx += std::to_string(atoi(verb.c_str() + a + 6)); }
+    }
+  }
+  return n;
+}
+
 // child body: returns the result line
-std::string solve_child(const Sys& s, int solver, double tol) {
+std::string solve_child(const Sys& s, int solver, double tol, int nthreads) {
+  if (nthreads > 0) {   // get_nthreads() reads the environment on every call of walk_descents (GOTO_NUM_THREADS first)
+    char buf[16]; snprintf(buf, sizeof buf, "%d", nthreads); setenv("OMP_NUM_THREADS", buf, 1); setenv("GOTO_NUM_THREADS", buf, 1);
+  }
   char tmpl[] = "/tmp/psv-nnls-XXXXXX"; int vfd = mkstemp(tmpl); unlink(tmpl);
   fflush(stdout); int saved = dup(1); dup2(vfd, 1);
   cholmod_common c; cholmod_l_start(&c);
@@ -350,18 +525,19 @@ std::string solve_child(const Sys& s, int solver, double tol) {
   count_rowmods(verb, "\tAdd ", addc, addm, maxr); count_rowmods(verb, "\tDelete ", delc, delm, maxr);
   o << " rowadd=" << addc << " madd=" << addm << " rowdel=" << delc << " mdel=" << delm << " maxrows=" << maxr
     << " refac=" << count_sub(verb, "Recomputing factorization from scratch");
+  { std::string fidx; int nf = count_forced(verb, &fidx); o << " forced=" << nf << " fidx=" << (fidx.empty() ? "-" : fidx); }
   return o.str();
 }
 
-std::string run_forked(const Sys& s, int solver, double tol, double hang_s, int& retries) {
+std::string run_forked(const Sys& s, int solver, double tol, double hang_s, int& retries, int nthreads = 0, int attempts = 3) {
   retries = 0;
-  for (int attempt = 0; attempt < 3; attempt++) {
+  for (int attempt = 0; attempt < attempts; attempt++) {
     int p[2]; if (pipe(p) != 0) return "abort pipe";
     fflush(NULL);
     pid_t pid = fork();
     if (pid == 0) {
       close(p[0]);
-      std::string r = solve_child(s, solver, tol);
+      std::string r = solve_child(s, solver, tol, nthreads);
       size_t off = 0; while (off < r.size()) { ssize_t w = write(p[1], r.data() + off, r.size() - off); if (w <= 0) break; off += w; }
       close(p[1]); _exit(0);
     }
@@ -389,6 +565,21 @@ std::string run_forked(const Sys& s, int solver, double tol, double hang_s, int&
   return "hang";
 }
 
+std::vector<double> parse_x(const std::string& r, int n) {
+  std::vector<double> x; std::istringstream in(r.substr(2)); std::string t;
+  for (int i = 0; i < n && (in >> t) && t != "|"; i++) x.push_back(from_bits(strtoull(t.c_str(), nullptr, 10)));
+  return x;
+}
+
+std::string ld_info(const Sys& s, const std::string& r, double tol, LdKkt* out = nullptr) {
+  std::vector<double> x = parse_x(r, s.n);
+  if ((int)x.size() != s.n) return "ldkkt=na";
+  LdKkt k = ld_kkt(s, x, tol); if (out) *out = k;
+  char buf[256]; snprintf(buf, sizeof buf, "ldkkt=%d ldfinite=%d ldnonneg=%d ldnegok=%d ldneed=%.3Le ldtol=%.3Le ldrel=%.3Le ldnegpart=%.3Le ldworst=%d",
+                          k.kkt ? 1 : 0, k.finite ? 1 : 0, k.nonneg ? 1 : 0, k.negok ? 1 : 0, k.need, k.tolmax, k.rel, k.negpart, k.worst);
+  return buf;
+}
+
 void emit(std::ofstream& fc, std::ofstream& fi, long id, const Sys& s, double kkt_tol, double hang_s, std::map<std::string, long>& stats) {
   fc << sys_line(id, s) << "\n"; fi << "sys\n";
   static const double DBL_EPS = 2.220446049250313e-16;
@@ -402,7 +593,9 @@ void emit(std::ofstream& fc, std::ofstream& fi, long id, const Sys& s, double kk
     int retries = 0;
     std::string r = run_forked(s, solver, tol, hang_s, retries);
     fc << "X " << id << " " << solver << " " << bits(tol) << "\n";
-    fi << r << (r.compare(0, 2, "ok") == 0 ? " retries=" + std::to_string(retries) : std::string()) << "\n";
+    fi << r << (r.compare(0, 2, "ok") == 0 ? " retries=" + std::to_string(retries) : std::string());
+    if (s.kind >= 8 && solver != 0 && r.compare(0, 2, "ok") == 0) fi << " " << ld_info(s, r, tol);   // the long-double judge of the large stream, tied to the exact driver here
+    fi << "\n";
     stats["solver" + std::to_string(solver)]++;
     if (retries) stats["hang_retries"] += retries;
   }
@@ -419,10 +612,84 @@ int main(int argc, char** argv) {
       if (line.compare(0, 3, "SYS") == 0) { have = parse_sys(line, id, s); fi << "sys\n"; continue; }
       if (line.compare(0, 1, "X") == 0 && have) {
         std::istringstream is(line); std::string t; long i2; int solver; uint64_t tb; is >> t >> i2 >> solver >> tb; int retries;
-        std::string r = run_forked(s, solver, from_bits(tb), hang_s, retries);
+        int nthr = 0; if (!(is >> nthr)) nthr = 0;
+        std::string r = run_forked(s, solver, from_bits(tb), hang_s, retries, nthr, nthr ? 2 : 3);
         fi << r << (r.compare(0, 2, "ok") == 0 ? " retries=" + std::to_string(retries) : std::string()) << "\n";
       }
     }
+    return 0;
+  }
+  static const double DBL_EPS_ = 2.220446049250313e-16;
+  if (argc >= 6 && (std::string(argv[1]) == "big" || std::string(argv[1]) == "bigreplay")) {
+    // big <count> <out> <kkt_tol> <hang_s>   |   bigreplay <out> <kkt_tol> <hang_s> <solver> <descriptor...>
+    bool rep = std::string(argv[1]) == "bigreplay";
+    std::ofstream fo(argv[rep ? 2 : 3]); double kkt_tol = atof(argv[rep ? 3 : 4]), hang_s = atof(argv[rep ? 4 : 5]);
+    const char* e = getenv("VERIF_SEED"); uint64_t seed = e ? strtoull(e, nullptr, 10) : 1;
+    Rng r(seed * 0x2545f4914f6cdd1dULL + 1105);
+    std::vector<BigDesc> ds; int only = -1;
+    if (rep) {
+      if (argc < 7) return 2;
+      only = atoi(argv[5]); std::ostringstream j; for (int a = 6; a < argc; a++) j << argv[a] << " ";
+      std::istringstream in(j.str()); BigDesc d; if (!big_desc_parse(in, d)) { fprintf(stderr, "bad descriptor\n"); return 2; }
+      ds.push_back(d);
+    } else { long cnt = atol(argv[2]); for (long k = 0; k < cnt; k++) ds.push_back(draw_big(r, (int)k)); }
+    for (size_t k = 0; k < ds.size(); k++) {
+      std::vector<int> roles; Sys s = gen_big(ds[k], &roles);
+      if (getenv("PSV_NNLS_DUMPSYS")) { std::ofstream fd(getenv("PSV_NNLS_DUMPSYS")); fd << sys_line((long)k, s) << "\n"; }
+      for (int solver = 2; solver <= 3; solver++) {
+        if (only >= 0 && solver != only) continue;
+        double tol = (solver == 3) ? (double)s.n * DBL_EPS_ * 1e5 : kkt_tol;
+        int retries = 0; struct timespec t0, t1; clock_gettime(CLOCK_MONOTONIC, &t0); std::string vec;
+        std::string res = run_forked(s, solver, tol, hang_s, retries, 0, 1);
+        clock_gettime(CLOCK_MONOTONIC, &t1);
+        fo << "BIG " << k << " " << solver << " " << bits(tol) << " ; " << big_desc_str(ds[k]) << " ; ";
+        if (res.compare(0, 2, "ok") == 0) {
+          LdKkt kk; std::string li = ld_info(s, res, tol, &kk);
+          size_t bar = res.find('|');
+          fo << "ok ;" << (bar == std::string::npos ? "" : res.substr(bar + 1)) << " retries=" << retries << " ; " << li
+             << " worstrole=" << (kk.worst >= 0 ? roles[kk.worst] : -1);
+          std::vector<double> x = parse_x(res, s.n); int pos = 0; for (double v : x) if (v > 0) pos++;
+          fo << " positive=" << pos;
+          if (!(kk.kkt && kk.finite && kk.negok && (solver != 3 || kk.nonneg))) { size_t bar2 = res.find('|'); vec = res.substr(3, bar2 == std::string::npos ? std::string::npos : bar2 - 3); }
+        } else fo << res << " ; ; ";
+        fo << " ; secs=" << ((t1.tv_sec - t0.tv_sec) + 1e-9 * (t1.tv_nsec - t0.tv_nsec)) << " ; " << vec << "\n"; fo.flush();
+      }
+    }
+    return 0;
+  }
+  if (argc >= 9 && std::string(argv[1]) == "corpus") {
+    // corpus <corpus.txt> <cases.out> <impl.out> <stats.out> <kkt_tol> <hang_s> <t2,t3,...>
+    // corpus lines: "n  a_11 .. a_nn  b_1 .. b_n" (small integers; '#' comments): systems on which some line search of
+    // nnls_normal_block3 has NO trial step that lowers the objective (found by tools/c11_forced_search.cpp)
+    std::ifstream in(argv[2]); std::ofstream fc(argv[3]), fi(argv[4]); double kkt_tol = atof(argv[6]), hang_s = atof(argv[7]);
+    std::vector<int> thr; thr.push_back(1); { std::istringstream ts(argv[8]); std::string t; while (std::getline(ts, t, ',')) if (atoi(t.c_str()) > 1) thr.push_back(atoi(t.c_str())); }
+    std::map<std::string, long> stats; std::string line; long id = 0; int hangs = 0;
+    while (std::getline(in, line)) {
+      if (line.empty() || line[0] == '#') continue;
+      std::istringstream is(line); int n; if (!(is >> n) || n < 1 || n > 12) continue;
+      std::vector<double> A((size_t)n * n), b(n); bool okp = true;
+      for (auto& v : A) if (!(is >> v)) okp = false;
+      for (auto& v : b) if (!(is >> v)) okp = false;
+      if (!okp) { stats["corpus_bad_lines"]++; continue; }
+      if (hangs >= 3) { stats["corpus_skipped_after_hangs"]++; continue; }
+      Sys s = from_dense(12, n, A, b);
+      fc << sys_line(id, s) << "\n"; fi << "sys\n";
+      for (size_t ti = 0; ti < thr.size(); ti++) for (int solver = 0; solver < 4; solver++) {
+        if (ti >= 1 && (solver == 0 || solver == 1)) continue;     // Lawson-Hanson and nnls_normal_block have no line-search workers
+        double tol = (solver == 3) ? (double)n * DBL_EPS_ * 1e5 : ((solver == 1 || solver == 2) ? kkt_tol : 1e-9);
+        int retries = 0;
+        std::string r = (hangs >= 3) ? std::string("skipped") : run_forked(s, solver, tol, hang_s, retries, thr[ti], 2);
+        if (r == "skipped") continue;
+        if (r.compare(0, 4, "hang") == 0) hangs++;
+        fc << "X " << id << " " << solver << " " << bits(tol) << " " << thr[ti] << "\n";
+        fi << r << (r.compare(0, 2, "ok") == 0 ? " retries=" + std::to_string(retries) + " threads=" + std::to_string(thr[ti]) : std::string()) << "\n";
+        stats["solver" + std::to_string(solver)]++;
+        if (retries) stats["hang_retries"] += retries;
+      }
+      stats["kind12"]++; stats["n" + std::to_string(n)]++; id++;
+    }
+    std::ofstream fs(argv[5]);
+    fs << "{"; bool first = true; for (auto& kv : stats) { fs << (first ? "" : ", ") << "\"" << kv.first << "\": " << kv.second; first = false; } fs << "}\n";
     return 0;
   }
   if (argc < 8) { fprintf(stderr, "usage\n"); return 2; }
